@@ -136,9 +136,9 @@ pub fn run<W: Write>(seed: u64, per_pool: u64, maxops: u64, out: &mut W) -> (u64
                 let mut amount: u128 = match rng.below(10) {
                     0 => rng.range(1, 2000) as u128,
                     1 => pow10(p.dec) * rng.range(1, 50) as u128,
-                    2 | 3 => reserve / (rng.range(3, 4000) as u128) + rng.range(0, 1000) as u128,
+                    2 | 3 => reserve / (rng.range(3, 4000) as u128) + rng.range(0, 1000) as u128 + 1,
                     4 => reserve / (rng.range(2, 9) as u128),
-                    6 => if rng.chance(40) { reserve } else if rng.chance(50) { reserve - 1 } else { reserve / 2 + 1 },
+                    6 => if rng.chance(40) { reserve } else if rng.chance(50) { reserve.saturating_sub(1).max(1) } else { reserve / 2 + 1 },
                     5 => reserve / 1_000_003 * (rng.range(1, 9) as u128) + 7,
                     _ => reserve / (rng.range(10, 900) as u128) * 3 / 7 + rng.range(0, 3) as u128,
                 };
